@@ -7,9 +7,12 @@
                            after them is dropped and different statements normalise to the same text.
      q_block_comment_kept  nothing removes `/* ... */` comments of TypeScript/JavaScript lines: a comment
                            inside or next to a duplicated run makes the run differ.
-     q_overlap_asym        ViolationFilter._overlaps adds the *later* violation's line count to the earlier
-                           violation's start (line1 < line2 + count(v1)); the property needs the earlier
-                           block's extent (count(v2)). *)
+     q_overlap_asym        true = the overlap test of ViolationFilter._overlaps as read from the source.  Until fix
+                           f9c5945 the source added the *later* violation's line count to the earlier violation's
+                           start (line1 < line2 + count(v1)); the property needs the earlier block's extent
+                           (count(v2)).  The repaired source says exactly that (Proofs/DryMain.v gen_viol_overlap),
+                           so the flag no longer changes the model; it is kept so that a regression of the code
+                           is attributed to the recorded (now "fixed") finding. *)
 From TL Require Import Lib.Base Lib.GenTypes Model.DryBase Model.DryPipe Gen.DryGen.
 
 Record dquirks := { q_strip_in_code : bool; q_block_comment_kept : bool; q_overlap_asym : bool }.
